@@ -110,7 +110,7 @@ ADDED = {
  "C08": "Also: a kinded union's re-pointed member is used at type level only after its own strategy was consulted (kindedrepr). The places of bindnode that answer Null / Absent for a nil Go value decide it under the same tests (nullsame, sibling agreement). A begun list or map exists: its Go value is made or found non-nil before the assembler is handed out (begunexists). The member of a union is set before the enclosing finish hook can run (memberthenfinish, shared with C19).",
  "C09": "Also: a stringjoin struct is split without a limit (splitexact); reflect accessors are applied to the materialised slot, never to the raw (possibly pointer) value (materialised); the reverse key mapping has no identity fallback for type-level names (reversekey); AssignNode never writes the slot itself (assignnodechecked); a list assembler of fixed arity (the listpairs pair) refuses to finish below it (arity); every AssignString that can write a string into the bound Go value consults the enum members (enummember). A membership bit 1 << i is computed only where i was bounded below the word width (shiftwidth). Where a repeated key is rejected on a look-up in the index, every successful return of that function lies beyond the look-up (repeat, must-pass-through).",
  "C10": "Also: both decoders bound nesting by the same comparison (depth, sibling agreement); slice bounds are normalised against the length of the value that is sliced (slicedomain). An element of untrusted bytes is read at a constant index only where len() of them was compared beyond it (index); a number parsed from a path segment or read from a node indexes a slice only where bounded from below and above (untrustedindex).",
- "C11": "Also: no builder, assembler or iterator makes a node out of its own fields (nodeoutside); a ReadSeeker held in a field is positioned before every read and never handed out as it is (sharedseeker); the decoder's input is not recycled storage (decoderbytes); no assembler method writes the node when the assembler is finished (afterfinish).",
+ "C11": "Also: no builder, assembler or iterator makes a node out of its own fields (nodeoutside); a ReadSeeker held in a field is positioned before every read and never handed out as it is (sharedseeker); the decoder's input is not recycled storage (decoderbytes); no assembler method writes the node when the assembler is finished (afterfinish). bindnode's builders are held to the reset rule in its reflect spelling: Reset never calls a reflect.Value setter on a handle read out of the builder.",
  "C12": "Also: the finish-hook rule covers every function that writes an assembler's slot; a rejected key leaves the assembler in its initial state (usableafterreject); AssignNode takes the checked route (assignnodechecked). Nothing is written before a repeated key is reported (rejectclean). The member of a union is set before the enclosing finish hook can run (memberthenfinish, shared with C19).",
  "C14": "Also: the LinkPath handed to the link system by get is the path recorded as LastBlock.Path (get); a map key becomes a reported path segment only through its representation when typed and only after AsString succeeded (keysegment).",
  "C15": "Also: the seen-set is never re-created inside a recursive walk (seeninit); start-path comparisons only while not past the start path (startgate); every spending site of package traversal tests the counter before charging (threshold). Within one activation a second visit is never reachable without a new spend, and the functions of the recursion that spend nothing do not invoke the visit callback (once, extended). The Budget pointer of a Progress is replaced only behind the Preloader edge, for the rewind after a preload pass: one budget object is charged by the whole traversal (owners, clause d).",
